@@ -187,7 +187,7 @@ where
             if !interlock.sender.check_local() {
                 return Err(ser::Error::custom("cannot send receiver because sender has been sent"));
             }
-            interlock.sender.start_send()
+            interlock.receiver.start_send()
         };
 
         let port = PortSerializer::connect(move |connect| {
